@@ -1084,6 +1084,35 @@ def registry(rnd, nseq=60):
     return out
 
 
+def add_storm(rounds=40, nscripts=4):
+    """C20: several AddPeer calls for the SAME absent key issued at once (and, in every other round, two
+    DeletePeer calls for the same present key): exactly one of each may succeed, whatever the interleaving
+    inside AddPeer/DeletePeer.  Before Serve (no sessions, cheap) and, in the last script, while serving a
+    passive peer."""
+    out = []
+    for i in range(nscripts):
+        serving = i == nscripts - 1
+        ps = [peer("pa", "10.0.0.2", passive=True), peer("pb", "10.0.0.3", remoteAS=65003, passive=True)]
+        b = Sb("addstorm-%d" % i, ps)
+        if serving:
+            b.add("serve")
+        for r in range(rounds):
+            k = 2 + (r + i) % 4
+            subs = [step("addPeer", peer="pa") for _ in range(k)]
+            if r % 3 == 0:
+                subs += [step("addPeer", peer="pb"), step("addPeer", peer="pb")]
+            b.steps.append(multi(*subs))
+            if r % 2:
+                b.steps.append(multi(step("deletePeer", peer="pa"), step("deletePeer", peer="pa"), step("getPeer", peer="pa")))
+            else:
+                b.delete("pa")
+            if r % 3 == 0:
+                b.delete("pb")
+        b.add("listPeers")
+        out.append(b.tag("reg", "apirace").build())
+    return out
+
+
 def multi(*subs):
     return step("multi", multi=list(subs))
 
